@@ -20,6 +20,7 @@ ASSUMPTIONS = [
 ]
 
 TS = [0, 25, 1234567890]
+TS_PATTERNS = [[0, 0, 0], [7, 7, 9], [5, 9, 9], [9, 5, 1], [0, 1000, 0], [1000, 1000, 2000]]
 LEDGE = [4.0, 8.0, 2.0]
 
 
@@ -91,7 +92,8 @@ def truth_frame(case, f):
                 expect.append(w)
             else:
                 expect.append(r)
-    fr = {"ts": TS[f] + case.get("ts_shift", 0), "types": types, "lo": cell["lo"], "L": cell["L"], "tilts": cell["tilts"], "coords": coords}
+    ts = case["ts_list"][f] if case.get("ts_list") else TS[f] + case.get("ts_shift", 0)
+    fr = {"ts": ts, "types": types, "lo": cell["lo"], "L": cell["L"], "tilts": cell["tilts"], "coords": coords}
     bb, rb = bounds_of(fr, d)
     exp = {"timestep": fr["ts"], "nparticle": n, "particle_type": types, "positions": np.array(expect).reshape(n, d), "boxlength": L,
            "boxbounds": np.array(bb), "realbounds": None if rb is None else np.array(rb), "hmatrix": H}
@@ -141,6 +143,12 @@ def gen_vary(tier, seed):
                     for order_kind in ("sorted", "reversed"):
                         yield {"d": d, "cell": cell, "style": style, "N": 3, "order": order_kind, "F": 3, "extras": "float", "syntax": "decimal",
                                "flags": "pp pp pp", "vary": vary}
+            # timestep labels are data, not keys: repeated, decreasing and alternating labels (concatenated runs, reset_timestep, minimisation
+            # dumps all labelled 0) still mean one snapshot per frame, in file order
+            for tsl in TS_PATTERNS:
+                for style in ("x", "xu"):
+                    yield {"d": d, "cell": cell, "style": style, "N": 2, "order": "reversed", "F": 3, "extras": "none", "syntax": "decimal",
+                           "flags": "pp pp pp", "vary": "cell" if tsl[0] == tsl[1] else None, "ts_list": tsl}
 
 
 def compare(R, tag, S, exps, style, tri, sig):
